@@ -63,6 +63,12 @@ type Clause struct {
 	Lemma  string
 }
 
+// LoopGhost: `loop N ghost lhs := e`
+type LoopGhost struct {
+	Loop int
+	AC   AtCall
+}
+
 type Contract struct {
 	Key                string
 	Clauses            []*Clause
@@ -70,6 +76,7 @@ type Contract struct {
 	Nilable            bool     // receiver may be nil
 	Opaque             []string // interface methods treated as unknown code in this function (no devirtualisation)
 	GhostVars          []GhostVar
+	LoopGhosts         []LoopGhost // ghost updates executed at the start of every iteration of a loop
 	AtCalls            []AtCall
 	UnreachableReturns int // returns that are expected to be unreachable under the contract
 	Line               int
@@ -122,7 +129,7 @@ type ContractFile struct {
 type GhostField struct{ Type, Field, Sort string }
 
 var reClause = regexp.MustCompile(`^(requires|ensures|modifies|decreases|trusted|nilable|hint|assume|preserves|unreachable-returns|opaque|exit|apply|cut|rely|guarantee|interference|inline)(\[[A-Za-z0-9,@]+\])?\s*(.*)$`)
-var reLoop = regexp.MustCompile(`^loop\s+(\d+)\s+(invariant|decreases|modifies|hint|apply|assume)(\[[A-Za-z0-9,@]+\])?\s+(.*)$`)
+var reLoop = regexp.MustCompile(`^loop\s+(\d+)\s+(invariant|decreases|modifies|hint|apply|assume|ghost)(\[[A-Za-z0-9,@]+\])?\s+(.*)$`)
 var reGhostVar = regexp.MustCompile(`^ghost\s+var\s+([A-Za-z_][A-Za-z0-9_]*)\s+(int|bool|\[int\]int|\[int\]bool)\s*=\s*(.*)$`)
 var reAtCall = regexp.MustCompile(`^at\s+call\??\s+([A-Za-z0-9_./()*]+)#(\d+)\s+ghost(\[[A-Za-z0-9,@]+\])?\s+([A-Za-z_][A-Za-z0-9_.\[\]+\-* ()]*?)\s*:=\s*(.*)$`)
 var reByStepStore = regexp.MustCompile(`^bystep(\[[A-Za-z0-9,@]+\])?\s+store\s+in\s+(.*?)\s+when\s+(.*?)\s+by\s+([A-Za-z0-9_]+)$`)
@@ -327,6 +334,22 @@ func parseContractFile(path string) (*ContractFile, error) {
 			if m := reLoop.FindStringSubmatch(t); m != nil {
 				n, _ := strconv.Atoi(m[1])
 				cl := &Clause{Kind: m[2], Loop: n, Props: parseProps(m[3]), Text: m[4], Line: l.line}
+				if cl.Kind == "ghost" {
+					parts := strings.SplitN(m[4], ":=", 2)
+					if len(parts) != 2 {
+						return nil, fail(fmt.Errorf("loop ghost: lhs := e expected"))
+					}
+					lhs, err := parseSpec(strings.TrimSpace(parts[0]))
+					if err != nil {
+						return nil, fail(err)
+					}
+					e, err := parseSpec(strings.TrimSpace(parts[1]))
+					if err != nil {
+						return nil, fail(err)
+					}
+					cur.LoopGhosts = append(cur.LoopGhosts, LoopGhost{Loop: n, AC: AtCall{Var: strings.TrimSpace(parts[0]), LHS: lhs, Expr: e, Line: l.line, Props: parseProps(m[3])}})
+					continue
+				}
 				if cl.Kind == "modifies" {
 					var locs []*Spec
 					if strings.TrimSpace(m[4]) != "nothing" {
